@@ -126,7 +126,15 @@ def law_regex(rnd, ev, mods, imps, acc, forced=None):
     other_s, other_o = _other(rnd, mods), _other(rnd, mods)
     if forced and len(forced) > 6:
         other_s, other_o = tuple(forced[6]), tuple(forced[7])
-    if side == "subject":
+    if side == "anything" or (not forced and rnd.random() < 0.12):
+        # the alias shapes: regex subject 'should not import anything' == the named matches 'should not import anything'
+        side = "anything"
+        compact = {"verb": "should_not", "dir": d, "exc": False, "subs": [("regex", rx1)], "objs": [], "anything": True}
+        expansion = dict(compact, subs=[("named", m) for m in m1])
+        unmatched = not m1
+        nmatch = len(m1)
+        verb, exc = "should_not", False
+    elif side == "subject":
         compact = {"verb": verb, "dir": d, "exc": exc, "subs": [("regex", rx1)], "objs": [other_o], "anything": False}
         expansion = dict(compact, subs=[("named", m) for m in m1])
         unmatched = not m1
